@@ -18,7 +18,7 @@ pub struct Case {
 }
 
 fn strategy() -> impl Strategy<Value = Case> {
-	let cfg = GenCfg { ns_min: 2, ns_max: 3, p_missing: 15, style: TargetStyle::Arbitrary, max_classes: 6, ..GenCfg::default() };
+	let cfg = GenCfg { ns_min: 2, ns_max: 3, p_missing: 15, style: TargetStyle::Arbitrary, max_classes: 6, backslash_docs: true, ..GenCfg::default() };
 	(mapset(cfg), any::<u8>(), order_seed()).prop_map(|(m, ns, order)| {
 		let ns = (ns as usize) % m.ns.len();
 		Case { m, ns, order }
@@ -102,7 +102,7 @@ pub struct DiffCase {
 }
 
 fn diff_strategy() -> impl Strategy<Value = DiffCase> {
-	let cfg = GenCfg { ns_min: 2, ns_max: 2, p_missing: 10, style: TargetStyle::Arbitrary, max_classes: 5, ..GenCfg::default() };
+	let cfg = GenCfg { ns_min: 2, ns_max: 2, p_missing: 10, style: TargetStyle::Arbitrary, max_classes: 5, backslash_docs: true, ..GenCfg::default() };
 	(mapset(cfg), draws(), draws(), draws(), order_seed()).prop_map(|(base, s1, s2, s3, order)| {
 		let a = edit(&base, 1, &s1);
 		let b = edit(&base, 1, &s2);
